@@ -5,6 +5,7 @@ CONSTANTS
   Ids = {i1, i2}
   MaxSteps = 1
   SendKinds = {"full", "head", "body"}
+  Resets = TRUE
   Mode = "detached"
 INVARIANT DetachedNeverCancelled
 INVARIANT CancelOnlyWhenGone
